@@ -24,7 +24,7 @@ FLOORS = {'quick': {'enum:numbering': 6000, 'enum:limit': 5000, 'random': 2400, 
           'thorough': {'enum:numbering': 6000, 'enum:limit': 28000, 'random': 75000, 'random:limit': 150000}}
 REQUIRED_MONITORS = ['oracle:copies-and-counters', 'oracle:copies-direct-entry', 'probe:repeat-guard-monotone', 'probe:repeater-stack-balanced']
 
-SITE_KINDS = ['name', 'class', 'id', 'attr', 'qattr', 'attrname', 'text', 'eattr']
+SITE_KINDS = ['name', 'class', 'id', 'attr', 'qattr', 'attrname', 'text', 'eattr', 'ntext']
 
 
 def describe(tier):
@@ -75,6 +75,8 @@ def head(n):
             parts += '[%s=v]' % site
         elif kind == 'eattr':
             parts += '[e%d={%s}]' % (tag, site)     # an expression value keeps its braces in EVERY copy
+        elif kind == 'ntext':
+            text += '{a{%s}b{{c}}}' % site       # numbering inside balanced inner braces (`li{{{item$}}}` for a template language)
         else:
             text += '{%s}' % site
     s = name + '.m%d' % n.mark + ids + parts + text
@@ -360,7 +362,7 @@ def rand_tree(rng, depth=0, counter=None, copies=None):
             for _ in range(rng.choice([0, 1, 1, 2])):
                 n.sites.append((next(counter), rng.choice(SITE_KINDS), rng.randint(1, 4), rng.choice([None, None, 0, 1, 3, 12]), rng.random() < 0.4))
             kinds = [s[1] for s in n.sites]
-            if kinds.count('name') > 1 or kinds.count('id') > 1 or kinds.count('text') > 1:
+            if kinds.count('name') > 1 or kinds.count('id') > 1 or kinds.count('text') + kinds.count('ntext') > 1:
                 n.sites = n.sites[:1]
             if depth < 4 and rng.random() < 0.45:
                 n.ch = rand_tree(rng, depth + 1, counter, copies)
